@@ -97,7 +97,7 @@ pub fn run_line(line: &str) -> String {
                 return None;
             }
             // leave streaming mode for everything that is not a streaming op
-            let streaming_op = t.starts_with('S') || t == "Q" || t == "K";
+            let streaming_op = t.starts_with('S') || t.starts_with("Zs,") || t == "Q" || t == "K";
             if !streaming_op {
                 if let Mode::Streaming(_) = mode {
                     if let Mode::Streaming(sd) = std::mem::replace(&mut mode, Mode::Gone) {
@@ -140,6 +140,29 @@ pub fn run_line(line: &str) -> String {
                         Err(_) => "S:err".to_string(),
                     });
                 }
+                if let Some(rest) = t.strip_prefix("Zs,") {
+                    let n: usize = rest.parse().unwrap();
+                    let mut acc: Vec<u8> = Vec::new();
+                    let mut status = "ok";
+                    let mut iters = 0usize;
+                    loop {
+                        iters += 1;
+                        if iters > 1_000_000 {
+                            status = "loop";
+                            break;
+                        }
+                        let mut buf = vec![0u8; n];
+                        match sd.read(&mut buf) {
+                            Ok(0) => break,
+                            Ok(k) => acc.extend_from_slice(&buf[..k]),
+                            Err(_) => {
+                                status = "err";
+                                break;
+                            }
+                        }
+                    }
+                    return Some(format!("Z:{}:{}", hex(&acc), status));
+                }
                 if t == "Q" {
                     return Some(query(&sd.decoder, &src));
                 }
@@ -176,6 +199,110 @@ pub fn run_line(line: &str) -> String {
                     Ok(()) => "force:ok".to_string(),
                     Err(_) => "force:err".to_string(),
                 });
+            }
+            if let Some(rest) = t.strip_prefix("B?") {
+                if dec.is_finished() {
+                    return None;
+                }
+                let strat = match rest.as_bytes()[0] {
+                    b'a' => BlockDecodingStrategy::All,
+                    b'b' => BlockDecodingStrategy::UptoBlocks(rest[1..].parse().unwrap()),
+                    _ => BlockDecodingStrategy::UptoBytes(rest[1..].parse().unwrap()),
+                };
+                return Some(match dec.decode_blocks(&mut src, strat) {
+                    Ok(f) => format!("B:ok:{}", f as u8),
+                    Err(_) => "B:err".to_string(),
+                });
+            }
+            if let Some(rest) = t.strip_prefix('Z') {
+                // Z<mode>,<n>: drive the frame to completion; mirrored by the model's driver
+                let m = rest.as_bytes()[0];
+                let n: usize = rest[2..].parse().unwrap();
+                let mut acc: Vec<u8> = Vec::new();
+                let mut status = "ok";
+                let mut iters = 0usize;
+                match m {
+                    b'r' | b'c' | b'w' => {
+                        while status == "ok" && !(dec.is_finished() && dec.can_collect() == 0) && iters < 1_000_000 {
+                            iters += 1;
+                            if !dec.is_finished() {
+                                let strat = if m == b'c' {
+                                    BlockDecodingStrategy::UptoBlocks(1)
+                                } else {
+                                    BlockDecodingStrategy::UptoBytes(n)
+                                };
+                                if dec.decode_blocks(&mut src, strat).is_err() {
+                                    status = "err";
+                                }
+                            }
+                            if status == "ok" {
+                                match m {
+                                    b'r' => {
+                                        let mut buf = vec![0u8; n];
+                                        let k = dec.read(&mut buf).unwrap();
+                                        acc.extend_from_slice(&buf[..k]);
+                                    }
+                                    b'c' => {
+                                        if let Some(v) = dec.collect() {
+                                            acc.extend_from_slice(&v);
+                                        }
+                                    }
+                                    _ => {
+                                        let mut sink = BudgetSink { chunk: n, budget: usize::MAX, mode: 0, data: Vec::new() };
+                                        let _ = dec.collect_to_writer(&mut sink);
+                                        acc.extend_from_slice(&sink.data);
+                                    }
+                                }
+                            }
+                        }
+                    }
+                    b's' => {
+                        return Some("?Zs-needs-streaming-mode".to_string());
+                    }
+                    _ => {
+                        let mut c = n.max(1);
+                        loop {
+                            if status != "ok" || iters >= 1_000_000 {
+                                break;
+                            }
+                            iters += 1;
+                            let p = src.pos.get();
+                            let remaining = src.data.len() - p;
+                            let chunk = c.min(remaining);
+                            let fresh = dec.bytes_read_from_source() == 0 && dec.blocks_decoded() == 0 && dec.content_size() == 0 && dec.is_finished();
+                            let mut target = vec![0u8; n];
+                            match dec.decode_from_to(&src.data[p..p + chunk], &mut target) {
+                                Ok((read, written)) => {
+                                    src.pos.set((p + read).min(src.data.len()));
+                                    acc.extend_from_slice(&target[..written]);
+                                    if read == 0 && written == 0 {
+                                        if dec.is_finished() && dec.can_collect() == 0 {
+                                            break;
+                                        } else if chunk >= remaining {
+                                            if !dec.is_finished() {
+                                                status = "stuck";
+                                            }
+                                            break;
+                                        } else {
+                                            c *= 2;
+                                        }
+                                    }
+                                }
+                                Err(_) => {
+                                    if fresh && chunk < remaining {
+                                        c *= 2;
+                                    } else {
+                                        status = "err";
+                                    }
+                                }
+                            }
+                        }
+                    }
+                }
+                if iters >= 1_000_000 {
+                    status = "loop";
+                }
+                return Some(format!("Z:{}:{}", hex(&acc), status));
             }
             if let Some(rest) = t.strip_prefix('B') {
                 let strat = match rest.as_bytes()[0] {
